@@ -28,6 +28,16 @@ CHECKS.update({
  "C16": tv("Bounds of every reported syntax error on rejected documents; exact (line, column) of listener-raised errors and of merge conflicts against positions recorded by the independent renderer; correspondence with the Lean ports including positions.", "DESIGN.md §6.16", TV_NOTE),
 })
 
+CHECKS.update({
+ "C04": tv("Real weights (public Build and hooked forced start orders) vs the Lean specification of weights (least fixed point over a model-derived graph with operand grouping); oracles: edge rule, no placeholder, no empty map.", "DESIGN.md §6.4", TV_NOTE),
+ "C05": tv("Real verdict under every enumerated/sampled depth-first start order vs the Lean well-foundedness specification; error class limited to the three sentinels.", "DESIGN.md §6.5", TV_NOTE),
+ "C06": tv("All builds of one model (repeated, forced orders, permuted type definitions, concurrent) identical; operand permutation leaves relation weights unchanged (oracle on the real code).", "DESIGN.md §6.6", TV_NOTE),
+ "C10": tv("Node set and ordered edge lists (kinds, tupleset labels, ordered conditions) of the real weighted graph vs the Lean port of the construction; builder errors by kind; model unchanged.", "DESIGN.md §6.10", TV_NOTE),
+ "C11": tv("Real wildcard lists vs the reachable-public-types specification; duplicates; edge rule.", "DESIGN.md §6.11", TV_NOTE),
+ "C15": tv("Per-entry verdict and returned value of the real TransformModFile vs the Lean port, exhaustively over the escape alphabet to a bounded length plus random; whole manifests over yaml.v3 nodes; safety/verbatim/one-error-per-entry/position oracles.", "DESIGN.md §6.15", TV_NOTE),
+ "C17": tv("Structure of the plain graph, its reversal and double reversal, all-pairs reachability and cycle flags vs the Lean port; oracles: DOT stability, flip, path duality, lookup, flags.", "DESIGN.md §6.17", TV_NOTE),
+})
+
 NOT_YET = {}
 
 def main():
@@ -58,7 +68,7 @@ def main():
             "guard": "verif",
             "enable": "go build -tags verif (the harness module replaces github.com/openfga/language/pkg/go by /repo/pkg/go)",
             "baseline_off_cmd": "cd /repo/pkg/go && GOFLAGS=-mod=mod GOPROXY=off GOSUMDB=off GOTOOLCHAIN=local go test -json -vet=off -count=1 -timeout 25m ./...",
-            "source_commits": [],
+            "source_commits": ["68be8db"],
             "add_only": True,
         },
         "engines": [
